@@ -70,7 +70,7 @@ def hash_setter_sites(run):
 
 def rule_hash_provenance(run):
     sites = hash_setter_sites(run)
-    run.floor("FrameBuilder::hash / maybe_hash call sites", len(sites), 6)
+    run.floor("FrameBuilder::hash / maybe_hash call sites", len(sites), 4)
     for (b, c) in sites:
         fn = run.facts.enclosing_fn(b)
         run.touch(b)
